@@ -1,13 +1,19 @@
 import Liquid.Std
 import Proofs.C09
+import Proofs.RepEqRender
 /-!
 # C18 — output depends on a binding's Liquid value, not on its Go representation
 
-Per-operation statements: each operation of the value layer gives the same result on a value and
-on its re-representation (drop wrapping, pointer, typed vs generic container, fixed array vs
-slice, `[]byte` vs string, numeric width). The whole-template statement ("rendering any template
-against environments that differ only in these choices gives identical results") is what the
-`reps` correspondence stream checks; it is not proved here (`_partial` in that sense).
+Two layers.
+
+* Per-operation statements (first part of the file): each operation of the value layer gives the
+  same result on a value and on its re-representation (drop wrapping, pointer, typed vs generic
+  container, fixed array vs slice, `[]byte` vs string, numeric width).
+* The whole-template congruence (second part): `run_rep_independent` — rendering *any* template
+  against environments whose bindings are representation-equivalent (`ERel`, built on the normal
+  form `GoVal.norm` of `Proofs/RepEq.lean`) gives the same result, for every comparison, filter
+  and output layer that respects the equivalence (`PrimsRespect`, `OutRespect`). The restrictions
+  of the equivalence that the model (hence the real code) forces are recorded as `example`s.
 -/
 
 open GoVal
@@ -113,3 +119,113 @@ theorem int_width_truthy (k : IntKind) (n : Int) : (GoVal.int k n).test = true :
 
 /-! Non-vacuity -/
 example : (GoVal.drop (.drop (.ptr (.str [97])))).unwrap = .str [97] := by simp [unwrap]
+
+
+/-! # The whole-template congruence
+
+`RepEq d a b` (`Proofs/RepEq.lean`): `a` and `b` have the same normal form — typed slices and
+fixed arrays are generic slices, typed maps are generic maps with the same key type (at every
+depth), and with `d = true` a drop inside a container is the value it yields.
+`VRel d a b := RepEq d a.unwrap b.unwrap`: values at the top of an expression are compared through
+`ValueOf(·).Interface()` (drops of every depth resolved, pointers followed, a nil pointer is nil).
+`ERel d a b`: bindings; `VRel`, and the renderer's own `forloop` record is related to itself only.
+-/
+
+/-- **C18, whole template, parametric in the value layer.** For every comparison/filter layer `P`
+and output layer `O` that respect representation equivalence (`PrimsRespect`, `OutRespect`: related
+operands compare alike, related filter inputs give related results, related values print alike),
+every configuration, file system, include depth, template source and start line: rendering
+against two environments whose bindings are pointwise representation-equivalent gives the same
+result — the same output bytes or the same error. Proved by the mutual induction over the compiled
+tree (`rel_renderNode`, `Proofs/RepEqRender.lean`) on the two runs in lock step: the same write
+calls, related variable maps (assign, capture, loop variables, `forloop`, cycle counters), the same
+include results. -/
+theorem run_rep_independent (d : Bool) (P : Prims) (O : OutPrims) (hP : PrimsRespect false d P) (hO : OutRespect false d O)
+    (cfg : Cfg) (fs : FS) (fuel : Nat) (src : Bytes) (line : Nat) (env env' : Env)
+    (he : ∀ x, ERel d (env.get x) (env'.get x)) :
+    run P O cfg fs fuel src line env = run P O cfg fs fuel src line env' :=
+  (run_rel P O cfg fs fuel hP hO src line he).eq
+
+/-- The same up to the boundary of the model: the layers need to respect the equivalence only up
+to `unmodelled` results, and the two results agree (`RunAgree true`: equal, or one of them is
+`unmodelled`). This is the form the standard configuration satisfies. -/
+theorem run_rep_independent_upto_unmodelled (d : Bool) (P : Prims) (O : OutPrims) (hP : PrimsRespect true d P)
+    (hO : OutRespect true d O) (cfg : Cfg) (fs : FS) (fuel : Nat) (src : Bytes) (line : Nat) (env env' : Env)
+    (he : ∀ x, ERel d (env.get x) (env'.get x)) :
+    RunAgree true (run P O cfg fs fuel src line env) (run P O cfg fs fuel src line env') :=
+  run_rel P O cfg fs fuel hP hO src line he
+
+/-- representation-equivalent values are related bindings -/
+theorem binding_related_of_repEq {d : Bool} {a b : GoVal} (h : RepEq d a b) : ERel d a b := h.erel
+
+/-- a binding may in addition be a pointer to a related value (not to a struct) or a drop of any depth -/
+theorem binding_related_of_unwrap {d : Bool} {a b : GoVal} (h : RepEq d a.unwrap b.unwrap)
+    (ha : isRec a = false) (hb : isRec b = false) : ERel d a b :=
+  ⟨h, fun hr => by rcases hr with hr | hr <;> simp_all⟩
+
+/-- a nil pointer binding is a nil binding -/
+theorem binding_nilPtr_nil (d : Bool) : ERel d .nilPtr .nil :=
+  binding_related_of_unwrap (by simp [unwrap, RepEq.refl]) (by simp [isRec, cyclesOf]) (by simp [isRec, cyclesOf])
+
+/-! Non-vacuity: concrete related bindings, and layers that satisfy the hypotheses. -/
+
+/-- a drop of a typed slice holding a drop ~ the generic slice of the values -/
+example : RepEq true (.drop (.slice (.int .int) [.int .int 1, .drop (.int .int 2)])) (.slice .any [.int .int 1, .int .int 2]) := by
+  simp [RepEq, norm, normList, dropRigid, isRec, cyclesOf]
+
+/-- a typed map of typed arrays ~ the generic map whose value is a drop of a generic slice -/
+example : RepEq true (.map .str (.slice .str) [(.str [97], .array .str [.str [98]])])
+    (.map .str .any [(.str [97], .drop (.slice .any [.str [98]]))]) := by
+  simp [RepEq, norm, normList, normKVs, dropRigid, isRec, cyclesOf]
+
+/-- a binding that is a pointer to a drop of a typed slice ~ the generic slice (also with `d = false`) -/
+example : ERel false (.ptr (.drop (.slice (.int .int) [.int .int 1]))) (.slice .any [.int .int 1]) :=
+  binding_related_of_unwrap (by simp [RepEq, unwrap, norm, normList]) (by simp [isRec, cyclesOf]) (by simp [isRec, cyclesOf])
+
+/-- layers that satisfy the hypotheses: comparison by a constant, the identity filter, no output -/
+example : PrimsRespect false true
+    { equal := fun _ _ => .ok true, less := fun _ _ => .ok false, contains := fun _ _ => .ok false,
+      equalFn := fun _ _ => .ok true, applyFilter := fun _ r _ => .ok r, hasFilter := fun _ => true } :=
+  { equal := fun _ _ _ _ _ _ => rfl, less := fun _ _ _ _ _ _ => rfl, contains := fun _ _ _ _ _ _ => rfl,
+    equalFn := fun _ _ _ _ _ _ => rfl, applyFilter := fun _ _ _ _ _ hr _ => hr.2.2.vrel }
+
+example : OutRespect false true { chunks := fun _ => .ok [] } := { chunks := fun _ _ _ => rfl }
+
+/-- the hypothesis on the environments, on an environment binding `x` to a drop of a typed slice
+    and one binding it to the generic slice -/
+example : ∀ y, ERel true (Env.get [([120], .drop (.slice (.int .int) [.int .int 1]))] y)
+    (Env.get [([120], .slice .any [.int .int 1])] y) := by
+  intro y
+  by_cases h : y = [120]
+  · subst h
+    exact binding_related_of_repEq (by simp [Env.get, RepEq, norm, normList, dropRigid, isRec, cyclesOf])
+  · have : ([120] == y) = false := by simp [Ne.symm h]
+    simp [Env.get, List.find?, this, ERel.refl]
+
+/-! ## Restrictions of the equivalence forced by the model (each with its counterexample) -/
+
+/-- *Integer width is not forgotten*: as an index only a Go `int` (or a float) selects an element
+(`arrayValue.IndexValue` switches on `int`, `float32`, `float64`); the same for the bounds of a
+range and for `limit`/`offset`/`cols` (`Value.Int()`). Template `{{ a[i] }}` with
+`a = []any{"x"}`, `i = int64(0)` prints nothing, with `i = int(0)` it prints `x`. -/
+example : indexValue (.slice .any [.str [120]]) (.int .i64 0) = .val .nil ∧
+    indexValue (.slice .any [.str [120]]) (.int .int 0) = .val (.str [120]) := by
+  constructor <;> simp [indexValue, unwrap, indexValue.indexList]
+
+example : intOf (.int .i64 3) = none ∧ intOf (.int .int 3) = some 3 := by
+  constructor <;> simp [intOf, unwrap]
+
+/-- *The renderer's `forloop` record is rigid*: the `cycle` tag recognises the record by the Go
+type of its counter map (`cycleCounters`, unexported: no binding can have it), so a drop around
+such a record is not the record. (A model-only restriction: not realisable from Go.) -/
+example : (cyclesOf (.drop (forloopRec 0 1 []))).isSome = false ∧ (cyclesOf (forloopRec 0 1 [])).isSome = true := by
+  constructor <;> simp [cyclesOf, forloopRec, dotCycles]
+
+/-- *Pointers are followed at the top only*: a pointer nested in a container is not its pointee
+(`{{ m }}` prints an address, `m.a` follows it), so `norm` keeps pointers and only `unwrap`
+(bindings, results of expressions) resolves them. -/
+example : sprint (.ptr (.int .int 1)) = .unmodelled "fmt: a pointer prints as an address" ∧
+    sprint (.int .int 1) = .ok [49] := by
+  constructor
+  · simp [sprint]
+  · rfl
